@@ -611,7 +611,7 @@ impl<'a> Gen<'a> {
 
     fn store_op(&mut self) -> Op {
         let creator = self.rng.below(self.n_accounts as u64) as u32;
-        let with_checksum = if self.pc(self.p.own_checksum) { Some(self.rng.below(2) as u8) } else { None };
+        let with_checksum = if self.pc(self.p.own_checksum) { Some(self.rng.below(3) as u8) } else { None };
         let r = self.rng.below(10);
         let op = if r < 5 {
             Op::StoreCode { kind: self.kind(), creator, with_checksum }
